@@ -9,6 +9,8 @@ import GivaroModel.Model.Random
 import GivaroModel.Spec.RandomSpec
 import GivaroModel.Lemmas.RandomLemmas
 import GivaroModel.Lemmas.RandomOrbit
+import GivaroModel.Model.RandomDest
+import GivaroModel.Lemmas.RandomDestLemmas
 namespace Givaro.Props.C20
 open Givaro Givaro.Model.Random Givaro.Spec.Random Givaro.Lemmas.Random
 
@@ -445,33 +447,6 @@ theorem modStep_spec (fn : Nat) (size : Int) (hs : 0 ≤ size) (hs67 : 6 ≤ fn 
     exact ⟨this.1, fun _ => this.2⟩
   · simp at h
 
-/-- **iterator_canonical**: every element of an arbitrarily long sequence drawn by `ModularRandIter`, `GIV_randIter`,
-    `GeneralRingRandIter`, `GeneralRingNonZeroRandIter` or the `random`/`nonzerorandom` member functions of
-    `Modular<integral>` is canonical (and non-zero for the non-zero forms), from every generator state -/
-theorem iterator_canonical (fn : Nat) (size : Int) (hs : 0 ≤ size) (hs67 : 6 ≤ fn → size ≠ 0) (fuel : Nat) (n : Nat) :
-    ∀ (g : Int) (l : List Int), modSeq bits sgn p fn size fuel n g = some l →
-      l.length = n ∧ ∀ e ∈ l, canonical p e = true ∧ ((fn = 3 ∨ fn = 5 ∨ fn = 7) → e ≠ 0) := by
-  induction n with
-  | zero => intro g l h; simp only [modSeq, Option.some.injEq] at h; subst h; simp
-  | succ n ih =>
-    intro g l h
-    unfold modSeq at h
-    split at h
-    · simp at h
-    · rename_i eg heg
-      split at h
-      · simp at h
-      · rename_i l' hl'
-        simp only [Option.some.injEq] at h; subst h
-        have h1 := modStep_spec bits sgn p hb hp hfit fn size hs hs67 fuel g eg heg
-        have h2 := ih eg.2 l' hl'
-        refine ⟨by simp [h2.1], ?_⟩
-        intro e he
-        simp only [List.mem_cons] at he
-        rcases he with rfl | he
-        · exact h1
-        · exact h2.2 e he
-
 end Ring
 
 /-- termination of `nonzerorandom`, the part that is proved: whenever a draw is not a multiple of the modulus the loop
@@ -498,10 +473,6 @@ theorem modNonzero_terminates_large (sgn : Bool) (p g : Int) (hp : givMod ≤ p)
 
 example : modNonzero 64 false 4294967291 1 5 = some (givNext 5, givNext 5) :=
   modNonzero_terminates_large false 4294967291 5 (by decide) (by decide) (by decide) 0
-
-example : ∀ l, modSeq 32 true 101 5 0 64 3 7 = some l → l.length = 3 ∧ ∀ e ∈ l, canonical 101 e = true ∧ ((5 = 3 ∨ 5 = 5 ∨ 5 = 7) → e ≠ 0) :=
-  fun l h => iterator_canonical 32 true 101 (by decide) (by decide) (by decide) 5 0 (by decide) (by decide) 64 3 7 l h
-example : (modSeq 32 true 101 5 0 64 3 7).isSome = true := by decide
 
 /-! ### termination of the `nonzerorandom` loops on GivRandom
 
@@ -673,34 +644,6 @@ theorem gfqStep_spec (bits : Nat) (q : Int) (hb : 1 ≤ bits) (hq2 : 2 ≤ q) (h
     exact ⟨this.2.2, fun _ => by omega⟩
   · simp at h
 
-/-- **GFq iterators**: every element of an arbitrarily long sequence is canonical (non-zero for the non-zero forms) -/
-theorem gfq_iterator_canonical (bits : Nat) (q : Int) (hb : 1 ≤ bits) (hq2 : 2 ≤ q) (hq : q < 2 ^ (bits - 1)) (fn : Nat) (size : Int)
-    (hs : 0 ≤ size) (hs6 : fn = 6 → 1 ≤ size ∧ size ≤ q) (hs7 : fn = 7 → 2 ≤ size ∧ size ≤ q) (fuel : Nat) (n : Nat) :
-    ∀ (g : Int) (l : List Int), gfqSeq bits q fn size fuel n g = some l →
-      l.length = n ∧ ∀ e ∈ l, canonical q e = true ∧ ((fn = 3 ∨ fn = 5 ∨ fn = 7) → e ≠ 0) := by
-  induction n with
-  | zero => intro g l h; simp only [gfqSeq, Option.some.injEq] at h; subst h; simp
-  | succ n ih =>
-    intro g l h
-    unfold gfqSeq at h
-    split at h
-    · simp at h
-    · rename_i eg heg
-      split at h
-      · simp at h
-      · rename_i l' hl'
-        simp only [Option.some.injEq] at h; subst h
-        have h1 := gfqStep_spec bits q hb hq2 hq fn size hs hs6 hs7 fuel g eg heg
-        have h2 := ih eg.2 l' hl'
-        refine ⟨by simp [h2.1], ?_⟩
-        intro e he
-        simp only [List.mem_cons] at he
-        rcases he with rfl | he
-        · exact h1
-        · exact h2.2 e he
-
-example : (gfqSeq 32 8 1 100 64 3 7).isSome = true := by decide
-
 theorem giviter_succ_outer (j : Nat) : ∀ g : Int, givIter (j + 1) g = givNext (givIter j g) := by
   induction j with
   | zero => intro g; rfl
@@ -800,77 +743,515 @@ theorem poly_random_any_degree (bits : Nat) (sgn : Bool) (p : Int) (hb : 1 ≤ b
 
 example : polyRandomDeg 32 true 101 (-1) 64 7 = some ([], 7) := by decide
 
+/-! ## Destination independence, reproducibility, seed normalisation
+
+Model/RandomDest.lean spells every write to a destination the way the code does; the theorems below say that what the
+destination held before the call never shows in the result, that a run of calls on an iterator / generator is determined by
+the seed, the construction parameters and the list of calls (not by the destinations), and that a copy continues the sequence. -/
+
+/-! ### Integer::random* -/
+section IntDest
+variable {σ : Type} (G : RawGen σ)
+
+theorem lessthanD_eq (ap : Bool) (m old : Int) (st : σ) : lessthanD G ap m old st = lessthan G ap m st := rfl
+theorem lessthan2expD_eq (ap : Bool) (n : Nat) (old : Int) (st : σ) : lessthan2expD G ap n old st = lessthan2exp G ap n st := rfl
+theorem exact2expD_eq (ap : Bool) (m : Nat) (old : Int) (st : σ) : exact2expD G ap m old st = exact2exp G ap m old st := rfl
+theorem betweenD_eq (lo hi old : Int) (st : σ) : betweenD G lo hi old st = between G lo hi st := rfl
+
+theorem nonzeroWD_eq (ap : Bool) (n : Nat) (fuel : Nat) : ∀ (old : Int) (st : σ),
+    nonzeroWD G ap n fuel old st = nonzeroW G ap n fuel st := by
+  induction fuel with
+  | zero => intro old st; rfl
+  | succ f ih =>
+    intro old st
+    unfold nonzeroWD nonzeroW
+    by_cases h : (lessthan2exp G ap n st).1 = 0
+    · have h' : (lessthan2expD G ap n old st).1 = 0 := h
+      rw [if_pos h, if_pos h']; exact ih _ _
+    · have h' : ¬ (lessthan2expD G ap n old st).1 = 0 := h
+      rw [if_neg h, if_neg h']; rfl
+
+theorem nonzeroID_eq (ap : Bool) (m : Int) (fuel : Nat) : ∀ (old : Int) (st : σ),
+    nonzeroID G ap m fuel old st = nonzeroI G ap m fuel st := by
+  induction fuel with
+  | zero => intro old st; rfl
+  | succ f ih =>
+    intro old st
+    unfold nonzeroID nonzeroI
+    by_cases h : (lessthan G ap m st).1 = 0
+    · have h' : (lessthanD G ap m old st).1 = 0 := h
+      rw [if_pos h, if_pos h']; exact ih _ _
+    · have h' : ¬ (lessthanD G ap m old st).1 = 0 := h
+      rw [if_neg h, if_neg h']; rfl
+
+theorem between2expD_eq (m M fuel : Nat) (old : Int) (st : σ) : between2expD G m M fuel old st = between2exp G m M fuel st := by
+  unfold between2expD between2exp
+  rw [nonzeroWD_eq]
+  cases nonzeroW G true ((M + 18446744073709551616 - m) % 18446744073709551616) fuel st <;> rfl
+
+/-- `random_lessthan`, `random_lessthan_2exp`, `random_between`, `random_between_2exp`, `nonzerorandom` (word and Integer
+    bound): the result and the generator state after the call do not depend on what `r` held -/
+theorem lessthan_dest_indep (ap : Bool) (m old old' : Int) (st : σ) : lessthanD G ap m old st = lessthanD G ap m old' st := rfl
+theorem lessthan2exp_dest_indep (ap : Bool) (n : Nat) (old old' : Int) (st : σ) :
+    lessthan2expD G ap n old st = lessthan2expD G ap n old' st := rfl
+theorem between_dest_indep (lo hi old old' : Int) (st : σ) : betweenD G lo hi old st = betweenD G lo hi old' st := rfl
+theorem between2exp_dest_indep (m M fuel : Nat) (old old' : Int) (st : σ) :
+    between2expD G m M fuel old st = between2expD G m M fuel old' st := by rw [between2expD_eq, between2expD_eq]
+theorem nonzeroW_dest_indep (ap : Bool) (n fuel : Nat) (old old' : Int) (st : σ) :
+    nonzeroWD G ap n fuel old st = nonzeroWD G ap n fuel old' st := by rw [nonzeroWD_eq, nonzeroWD_eq]
+theorem nonzeroI_dest_indep (ap : Bool) (m : Int) (fuel : Nat) (old old' : Int) (st : σ) :
+    nonzeroID G ap m fuel old st = nonzeroID G ap m fuel old' st := by rw [nonzeroID_eq, nonzeroID_eq]
+
+/-- `random_exact_2exp(r, m)` does not depend on what `r` held, for every bit size `m ≥ 1` — including `m = 1`, where no
+    random bit is drawn at all (`random_lessthan_2exp(r, 0)` still overwrites `r` with 0 before the top bit is set) -/
+theorem exact2exp_dest_indep (ap : Bool) (m : Nat) (hm : m ≠ 0) (old old' : Int) (st : σ) :
+    exact2expD G ap m old st = exact2expD G ap m old' st := by
+  unfold exact2expD
+  simp only [hm, ne_eq, not_false_eq_true, ↓reduceIte]
+  rfl
+
+example (st : Unit) : exact2expD constGen true 1 (2 ^ 300) st = exact2expD constGen true 1 0 st :=
+  exact2exp_dest_indep constGen true 1 (by decide) _ _ st
+
+/-- … and the hypothesis is needed: for the (out-of-contract) bit size 0 nothing is drawn and the code sets bit `2^64 - 1` in
+    whatever `r` held -/
+theorem exact2exp_zero_bits_keeps_old (old : Int) (st : σ) :
+    exact2expD G true 0 old st = (setbit old 18446744073709551615, st) := by
+  simp [exact2expD, signTail, pred64]
+
+/-- `random_exact(r, const Integer& s)`: unconditional, because `bitsize s ≥ 1` for every `s` -/
+theorem exactI_dest_indep (ap : Bool) (s old old' : Int) (st : σ) : exactID G ap s old st = exactID G ap s old' st := by
+  unfold exactID
+  exact exact2exp_dest_indep G ap (bitsize s) (by unfold bitsize; split <;> omega) old old' st
+
+example (st : Unit) : exactID constGen false 0 (-7) st = exactID constGen false 0 12345 st := exactI_dest_indep constGen false 0 _ _ st
+
+/-- the whole family as one statement: replacing the destination content of any admissible call changes nothing -/
+theorem intStep_dest_indep (fuel : Nat) (st : σ) (c : IntCall) (hc : c.admissible) (o : Int) :
+    intStep G fuel st (c.withOld o) = intStep G fuel st c := by
+  cases c with
+  | lessthan ap m old => rfl
+  | lessthan2exp ap n old => rfl
+  | exact2exp ap n old => simp only [IntCall.withOld, intStep]; rw [exact2exp_dest_indep G ap n hc o old st]
+  | exactI ap s old => simp only [IntCall.withOld, intStep]; rw [exactI_dest_indep G ap s o old st]
+  | between lo hi old => rfl
+  | between2exp m M old => simp only [IntCall.withOld, intStep]; exact between2exp_dest_indep G m M fuel o old st
+  | nonzeroW ap n old => simp only [IntCall.withOld, intStep]; exact nonzeroW_dest_indep G ap n fuel o old st
+  | nonzeroI ap m old => simp only [IntCall.withOld, intStep]; exact nonzeroI_dest_indep G ap m fuel o old st
+  | random0 ap => rfl
+  | randBool => rfl
+
+/-- **reproducibility of the Integer generator**: after `Integer::seeding(s)` (state `st`) the values returned by any list of
+    admissible calls, and the state left behind, are determined by the calls' kinds and parameters — two runs whose calls differ
+    only in what the destinations held are identical -/
+theorem int_run_dest_indep (fuel : Nat) (cs : List IntCall) (hcs : ∀ c ∈ cs, c.admissible) (os : List Int) (hlen : os.length = cs.length)
+    (st : σ) : runCalls (intStep G fuel) (List.zipWith IntCall.withOld cs os) st = runCalls (intStep G fuel) cs st := by
+  induction cs generalizing os st with
+  | nil => cases os <;> simp_all [runCalls]
+  | cons c cs ih =>
+    cases os with
+    | nil => simp at hlen
+    | cons o os =>
+      simp only [List.zipWith_cons_cons, runCalls]
+      rw [intStep_dest_indep G fuel st c (hcs c (by simp)) o]
+      cases intStep G fuel st c with
+      | none => rfl
+      | some r => simp only; rw [ih (fun c hc => hcs c (by simp [hc])) os (by simpa using hlen)]
+
+example : runCalls (intStep constGen 4) [IntCall.exact2exp true 1 (2 ^ 200), IntCall.nonzeroW false 3 (-1)] ()
+    = runCalls (intStep constGen 4) [IntCall.exact2exp true 1 0, IntCall.nonzeroW false 3 0] () := by decide
+
+/-- the ranges hold for the destination-explicit draws as well (they are the value-level draws) -/
+theorem lessthanD_range (hG : G.Lawful) (ap : Bool) (m : Int) (hm : 0 < m) (old : Int) (st : σ) :
+    ltOk ap m (lessthanD G ap m old st).1 = true := lessthan_range G hG ap m hm st
+theorem exact2expD_bits (hG : G.Lawful) (ap : Bool) (n : Nat) (h1 : 1 ≤ n) (h2 : n < 18446744073709551616) (old : Int) (st : σ) :
+    exactOk ap n (exact2expD G ap n old st).1 = true ∧ bitsize (exact2expD G ap n old st).1 = n := exact_bits G hG ap n h1 h2 old st
+theorem betweenD_range (hG : G.Lawful) (lo hi : Int) (h : lo < hi) (old : Int) (st : σ) :
+    betweenOk lo hi (betweenD G lo hi old st).1 = true := between_range G hG lo hi h st
+
+example : exactOk false 200 (exact2expD constGen false 200 (2 ^ 999) ()).1 = true :=
+  (exact2expD_bits constGen constGen_lawful false 200 (by decide) (by decide) _ ()).1
+
+/-! ### RandomIntegerIterator -/
+
+/-- one `nextRandom` does not depend on the destination (for the exact-size iterator: for every bit size ≥ 1) -/
+theorem riiNext_dest_indep (u e : Bool) (bits : Nat) (hb : bits ≠ 0) (old old' : Int) (st : σ) :
+    riiNextD G u e bits old st = riiNextD G u e bits old' st := by
+  unfold riiNextD
+  cases e
+  · rfl
+  · simp only [↓reduceIte]; exact exact2exp_dest_indep G u bits hb old old' st
+
+/-- **RandomIntegerIterator**: the values produced by any list of calls (`++`, `random(a)`/`operator()(a)`, `setBitsize`)
+    are determined by the generator state at construction, the current bit size and the calls — neither the content of the
+    caller's destinations nor the previously generated `_integer` shows in them -/
+theorem rii_run_indep (u e : Bool) (cs : List RiiCall) (hcs : ∀ c ∈ cs, c.admissible) (os : List Int) (hlen : os.length = cs.length)
+    (bits : Nat) (hb : bits ≠ 0) (i i' : Int) (st : σ) :
+    (runCalls (riiStep G u e) (List.zipWith RiiCall.withOld cs os) ⟨bits, i, st⟩).map (fun r => (r.1, r.2.bits, r.2.gen)) =
+    (runCalls (riiStep G u e) cs ⟨bits, i', st⟩).map (fun r => (r.1, r.2.bits, r.2.gen)) := by
+  induction cs generalizing os bits i i' st with
+  | nil => cases os <;> simp_all [runCalls]
+  | cons c cs ih =>
+    cases os with
+    | nil => simp at hlen
+    | cons o os =>
+      have hrest : ∀ c ∈ cs, c.admissible := fun c hc => hcs c (by simp [hc])
+      have hl : os.length = cs.length := by simpa using hlen
+      simp only [List.zipWith_cons_cons, runCalls]
+      cases c with
+      | inc =>
+        simp only [RiiCall.withOld, riiStep]
+        rw [riiNext_dest_indep G u e bits hb i i' st]
+        have := ih hrest os hl bits hb (riiNextD G u e bits i' st).1 (riiNextD G u e bits i' st).1 (riiNextD G u e bits i' st).2
+        revert this
+        cases runCalls (riiStep G u e) (List.zipWith RiiCall.withOld cs os) ⟨bits, (riiNextD G u e bits i' st).1, (riiNextD G u e bits i' st).2⟩ <;>
+          cases runCalls (riiStep G u e) cs ⟨bits, (riiNextD G u e bits i' st).1, (riiNextD G u e bits i' st).2⟩ <;> simp
+      | random old =>
+        simp only [RiiCall.withOld, riiStep]
+        rw [riiNext_dest_indep G u e bits hb o old st]
+        have := ih hrest os hl bits hb i i' (riiNextD G u e bits old st).2
+        revert this
+        cases runCalls (riiStep G u e) (List.zipWith RiiCall.withOld cs os) ⟨bits, i, (riiNextD G u e bits old st).2⟩ <;>
+          cases runCalls (riiStep G u e) cs ⟨bits, i', (riiNextD G u e bits old st).2⟩ <;> simp
+      | setBitsize b =>
+        have hb' : b ≠ 0 := hcs (.setBitsize b) (by simp)
+        simp only [RiiCall.withOld, riiStep]
+        rw [riiNext_dest_indep G u e b hb' i i' st]
+        have := ih hrest os hl b hb' (riiNextD G u e b i' st).1 (riiNextD G u e b i' st).1 (riiNextD G u e b i' st).2
+        revert this
+        cases runCalls (riiStep G u e) (List.zipWith RiiCall.withOld cs os) ⟨b, (riiNextD G u e b i' st).1, (riiNextD G u e b i' st).2⟩ <;>
+          cases runCalls (riiStep G u e) cs ⟨b, (riiNextD G u e b i' st).1, (riiNextD G u e b i' st).2⟩ <;> simp
+
+example : (runCalls (riiStep constGen true true) [RiiCall.setBitsize 5, RiiCall.random (2 ^ 99), RiiCall.inc] ⟨30, 7, ()⟩).map (·.1)
+    = (runCalls (riiStep constGen true true) [RiiCall.setBitsize 5, RiiCall.random 0, RiiCall.inc] ⟨30, -1, ()⟩).map (·.1) := by decide
+
+/-- copy constructor / copy assignment: the copy *is* the state, hence continues with the same sequence -/
+theorem rii_copy_continues (u e : Bool) (s : RiiSt σ) (cs : List RiiCall) :
+    runCalls (riiStep G u e) cs (riiCopy s) = runCalls (riiStep G u e) cs s := by
+  cases s; rfl
+
+/-- two iterators constructed with the same parameters on the same (seeded) generator state are the same object -/
+theorem rii_same_seed_same_sequence (u e : Bool) (bits₁ bits₂ : Nat) (st₁ st₂ : σ) (hb : bits₁ = bits₂) (hs : st₁ = st₂) (cs : List RiiCall) :
+    runCalls (riiStep G u e) cs (riiCtor G u e bits₁ st₁) = runCalls (riiStep G u e) cs (riiCtor G u e bits₂ st₂) := by rw [hb, hs]
+
+end IntDest
+
+/-! ### rings, fields, polynomials on GivRandom -/
+
+/-- one call of any iterator / member function of `Modular<integral>` does not depend on the destination -/
+theorem modStep_dest_indep (bits : Nat) (sgn : Bool) (p : Int) (fn : Nat) (size : Int) (fuel : Nat) (g old old' : Int) :
+    modStepD bits sgn p fn size fuel g old = modStepD bits sgn p fn size fuel g old' := by rw [modStepD_eq, modStepD_eq]
+
+/-- **ModularRandIter / GIV_randIter / GeneralRingRandIter / GeneralRingNonZeroRandIter / random / nonzerorandom**: the elements
+    returned for a list of calls and the generator state left behind do not depend on what the destinations held -/
+theorem modRun_dest_indep (bits : Nat) (sgn : Bool) (p : Int) (fn : Nat) (size : Int) (fuel : Nat) (olds olds' : List Int)
+    (h : olds.length = olds'.length) (g : Int) :
+    modRun bits sgn p fn size fuel olds g = modRun bits sgn p fn size fuel olds' g := by
+  unfold modRun
+  apply runCalls_congr _ (fun _ _ => True) (fun s c c' _ => modStep_dest_indep bits sgn p fn size fuel s c c')
+  exact List.forall₂_iff_get.2 ⟨h, fun _ _ _ => trivial⟩
+
+example : modRun 32 true 101 5 0 64 [-1, -1, -1] 7 = modRun 32 true 101 5 0 64 [0, 5, 1000] 7 :=
+  modRun_dest_indep 32 true 101 5 0 64 _ _ rfl 7
+
+/-- copy semantics: the iterator copied after the calls `cs₁` (the copy constructor copies the GivRandom state) and then given
+    `cs₂` returns what the original would have returned; equivalently the sequence for `cs₁ ++ cs₂` is the concatenation -/
+theorem modRun_append (bits : Nat) (sgn : Bool) (p : Int) (fn : Nat) (size : Int) (fuel : Nat) (cs₁ cs₂ : List Int) (g : Int)
+    (r₁ : List Int × Int) (h₁ : modRun bits sgn p fn size fuel cs₁ g = some r₁)
+    (r₂ : List Int × Int) (h₂ : modRun bits sgn p fn size fuel cs₂ r₁.2 = some r₂) :
+    modRun bits sgn p fn size fuel (cs₁ ++ cs₂) g = some (r₁.1 ++ r₂.1, r₂.2) := by
+  unfold modRun at *
+  rw [runCalls_append, h₁]; simp only; rw [h₂]
+
+example : (modRun 32 true 101 0 0 64 [0, 0] 7).isSome = true := by decide
+
+/-- **iterator_canonical**: every element of an arbitrarily long run of calls of `ModularRandIter`, `GIV_randIter` (any
+    requested size), `GeneralRingRandIter`, `GeneralRingNonZeroRandIter` or the `random`/`nonzerorandom` member functions of
+    `Modular<integral>` is canonical (and non-zero for the non-zero forms), from every generator state and into every destination -/
+theorem iterator_canonical (bits : Nat) (sgn : Bool) (p : Int) (hb : 1 ≤ bits) (hp : 1 ≤ p) (hfit : p ≤ 2 ^ (bits - 1))
+    (fn : Nat) (size : Int) (hs : 0 ≤ size) (hs67 : 6 ≤ fn → size ≠ 0) (fuel : Nat) (olds : List Int) (g : Int) (r : List Int × Int)
+    (h : modRun bits sgn p fn size fuel olds g = some r) :
+    r.1.length = olds.length ∧ ∀ e ∈ r.1, canonical p e = true ∧ ((fn = 3 ∨ fn = 5 ∨ fn = 7) → e ≠ 0) := by
+  unfold modRun at h
+  refine runCalls_all _ (fun e => canonical p e = true ∧ ((fn = 3 ∨ fn = 5 ∨ fn = 7) → e ≠ 0)) ?_ olds g r h
+  intro s c o s' hstep
+  rw [modStepD_eq] at hstep
+  exact modStep_spec bits sgn p hb hp hfit fn size hs hs67 fuel s (o, s') hstep
+
+example : ∀ r, modRun 32 true 101 5 0 64 [-1, -1, -1] 7 = some r → r.1.length = 3 ∧ ∀ e ∈ r.1, canonical 101 e = true ∧ ((5 = 3 ∨ 5 = 5 ∨ 5 = 7) → e ≠ 0) :=
+  fun r h => iterator_canonical 32 true 101 (by decide) (by decide) (by decide) 5 0 (by decide) (by decide) 64 _ 7 r h
+example : (modRun 32 true 101 5 0 64 [-1, -1, -1] 7).isSome = true := by decide
+
+/-- reproducibility from the seed: an iterator is `(ring, size, GivRandom(seed))`; the same seed and construction parameters
+    and the same number of calls give the same elements, whatever the destinations held -/
+theorem iterator_same_seed_same_sequence (bits : Nat) (sgn : Bool) (p : Int) (fn : Nat) (size : Int) (fuel : Nat)
+    (seed₁ seed₂ : Int) (hseed : seed₁ = seed₂) (olds₁ olds₂ : List Int) (h : olds₁.length = olds₂.length) :
+    modRun bits sgn p fn size fuel olds₁ (givInit seed₁) = modRun bits sgn p fn size fuel olds₂ (givInit seed₂) := by
+  rw [hseed]; exact modRun_dest_indep bits sgn p fn size fuel olds₁ olds₂ h _
+
+/-- the same three statements for `GFqDom` (its `RandIter` is `GIV_randIter`) -/
+theorem gfqRun_dest_indep (bits : Nat) (q : Int) (fn : Nat) (size : Int) (fuel : Nat) (olds olds' : List Int)
+    (h : olds.length = olds'.length) (g : Int) : gfqRun bits q fn size fuel olds g = gfqRun bits q fn size fuel olds' g := by
+  unfold gfqRun
+  apply runCalls_congr _ (fun _ _ => True) (fun s c c' _ => by rw [gfqStepD_eq, gfqStepD_eq])
+  exact List.forall₂_iff_get.2 ⟨h, fun _ _ _ => trivial⟩
+
+theorem gfqRun_append (bits : Nat) (q : Int) (fn : Nat) (size : Int) (fuel : Nat) (cs₁ cs₂ : List Int) (g : Int)
+    (r₁ : List Int × Int) (h₁ : gfqRun bits q fn size fuel cs₁ g = some r₁)
+    (r₂ : List Int × Int) (h₂ : gfqRun bits q fn size fuel cs₂ r₁.2 = some r₂) :
+    gfqRun bits q fn size fuel (cs₁ ++ cs₂) g = some (r₁.1 ++ r₂.1, r₂.2) := by
+  unfold gfqRun at *
+  rw [runCalls_append, h₁]; simp only; rw [h₂]
+
+theorem gfq_iterator_canonical (bits : Nat) (q : Int) (hb : 1 ≤ bits) (hq2 : 2 ≤ q) (hq : q < 2 ^ (bits - 1)) (fn : Nat) (size : Int)
+    (hs : 0 ≤ size) (hs6 : fn = 6 → 1 ≤ size ∧ size ≤ q) (hs7 : fn = 7 → 2 ≤ size ∧ size ≤ q) (fuel : Nat) (olds : List Int) (g : Int)
+    (r : List Int × Int) (h : gfqRun bits q fn size fuel olds g = some r) :
+    r.1.length = olds.length ∧ ∀ e ∈ r.1, canonical q e = true ∧ ((fn = 3 ∨ fn = 5 ∨ fn = 7) → e ≠ 0) := by
+  unfold gfqRun at h
+  refine runCalls_all _ (fun e => canonical q e = true ∧ ((fn = 3 ∨ fn = 5 ∨ fn = 7) → e ≠ 0)) ?_ olds g r h
+  intro s c o s' hstep
+  rw [gfqStepD_eq] at hstep
+  exact gfqStep_spec bits q hb hq2 hq fn size hs hs6 hs7 fuel s (o, s') hstep
+
+example : (gfqRun 32 8 1 100 64 [-1, -1, -1] 7).isSome = true := by decide
+example : gfqRun 32 8 1 100 64 [-1, -1, -1] 7 = gfqRun 32 8 1 100 64 [0, 1, 2] 7 := gfqRun_dest_indep 32 8 1 100 64 _ _ rfl 7
+
+/-- **polynomial draws**: `Poly1Dom::random(g, r, Degree d)` (and the size / "same size as b" / `nonzerorandom` forms that
+    forward to it) returns the same polynomial whatever `r` held — longer, shorter, empty or non-canonical -/
+theorem poly_dest_indep (bits : Nat) (sgn : Bool) (p : Int) (d : Int) (fuel : Nat) (old old' : List Int) (g : Int) :
+    polyRandomD bits sgn p d fuel old g = polyRandomD bits sgn p d fuel old' g := by rw [polyRandomD_eq, polyRandomD_eq]
+
+example : polyRandomD 32 true 101 3 64 (List.replicate 12 1) 7 = polyRandomD 32 true 101 3 64 [] 7 := poly_dest_indep _ _ _ _ _ _ _ _
+
+/-- … and is a polynomial of exactly the requested degree with canonical coefficients (the zero polynomial for degree -∞) -/
+theorem poly_randomD_degree (bits : Nat) (sgn : Bool) (p : Int) (hb : 1 ≤ bits) (hp : 1 ≤ p) (hfit : p ≤ 2 ^ (bits - 1))
+    (d : Int) (fuel : Nat) (old : List Int) (g : Int) (r : List Int × Int) (h : polyRandomD bits sgn p d fuel old g = some r) :
+    polyDegOk p d r.1 = true := by
+  rw [polyRandomD_eq] at h
+  exact poly_random_any_degree bits sgn p hb hp hfit d fuel g r h
+
+example : (polyRandomD 32 true 101 3 64 (List.replicate 12 1) 7).isSome = true := by decide
+
+/-- a sequence of polynomial draws (each with its own requested degree and destination content) on one generator: the
+    polynomials and the generator state left behind depend on the degrees only -/
+theorem poly_run_dest_indep (bits : Nat) (sgn : Bool) (p : Int) (fuel : Nat) (cs cs' : List (Int × List Int))
+    (h : List.Forall₂ (fun c c' => c.1 = c'.1) cs cs') (g : Int) :
+    runCalls (polyStep bits sgn p fuel) cs g = runCalls (polyStep bits sgn p fuel) cs' g := by
+  apply runCalls_congr _ (fun c c' => c.1 = c'.1) _ cs cs' h
+  intro s c c' hc
+  unfold polyStep
+  rw [hc]; exact poly_dest_indep bits sgn p c'.1 fuel c.2 c'.2 s
+
 /-! ### RecInt::rand -/
 
-theorem ruFold_range (n : Nat) : ∀ (k : Nat) (acc : Int) (ws : List Int), 0 ≤ acc → acc < 18446744073709551616 ^ k →
-    (∀ w ∈ ws, 0 ≤ w ∧ w < 18446744073709551616) →
-    0 ≤ (ruFold n acc ws).1 ∧ (ruFold n acc ws).1 < 18446744073709551616 ^ (k + n) := by
-  induction n with
-  | zero => intro k acc ws h0 h1 _; simpa [ruFold] using ⟨h0, h1⟩
-  | succ n ih =>
-    intro k acc ws h0 h1 hw
-    have hB : (18446744073709551616 : Int) ^ (k + 1) = 18446744073709551616 ^ k * 18446744073709551616 := pow_succ _ _
-    have hk : k + (n + 1) = (k + 1) + n := by omega
-    cases ws with
-    | nil =>
-      simp only [ruFold]; rw [hk]
-      exact ih (k + 1) _ [] (by positivity) (by rw [hB]; nlinarith) (by simp)
-    | cons w ws =>
-      have hw0 := hw w (by simp)
-      simp only [ruFold]; rw [hk]
-      exact ih (k + 1) _ ws (by nlinarith) (by rw [hB]; nlinarith) (fun x hx => hw x (by simp [hx]))
+/-- filling a `ruint` limb by limb does not depend on its previous content as soon as writing one limb does not -/
+theorem ruTree_dest_indep {σ : Type} (leaf : Int → σ → Int × σ) (hleaf : ∀ o o' s, leaf o s = leaf o' s) (k : Nat) :
+    ∀ (old old' : Int) (s : σ), ruTree leaf k old s = ruTree leaf k old' s := by
+  induction k with
+  | zero => intro old old' s; exact hleaf old old' s
+  | succ k ih =>
+    intro old old' s
+    simp only [ruTree]
+    rw [ih (old / 2 ^ (64 * 2 ^ k)) (old' / 2 ^ (64 * 2 ^ k)) s]
+    rw [ih (old % 2 ^ (64 * 2 ^ k)) (old' % 2 ^ (64 * 2 ^ k))]
 
-/-- `rand(ruint<K>&)` is in `[0, 2^(2^K))` for every `K ≥ 6` and every word stream -/
-theorem ru_rand_range (K : Nat) (hK : 6 ≤ K) (ws : List Int) (hw : ∀ w ∈ ws, 0 ≤ w ∧ w < 18446744073709551616) :
-    0 ≤ (ruRand K ws).1 ∧ (ruRand K ws).1 < 2 ^ (2 ^ K) := by
-  have h := ruFold_range (ruLimbs K) 0 0 ws (by decide) (by simp) hw
-  have e : (18446744073709551616 : Int) ^ (0 + ruLimbs K) = 2 ^ (2 ^ K) := by
-    have : (18446744073709551616 : Int) = 2 ^ 64 := by norm_num
-    rw [this, ← pow_mul, Nat.zero_add]
+theorem ruTree_range {σ : Type} (leaf : Int → σ → Int × σ) (hleaf : ∀ o s, 0 ≤ (leaf o s).1 ∧ (leaf o s).1 < 2 ^ 64) (k : Nat) :
+    ∀ (old : Int) (s : σ), 0 ≤ (ruTree leaf k old s).1 ∧ (ruTree leaf k old s).1 < 2 ^ (64 * 2 ^ k) := by
+  induction k with
+  | zero => intro old s; simpa [ruTree] using hleaf old s
+  | succ k ih =>
+    intro old s
+    simp only [ruTree]
+    have e : (2 : Int) ^ (64 * 2 ^ (k + 1)) = 2 ^ (64 * 2 ^ k) * 2 ^ (64 * 2 ^ k) := by rw [← pow_add]; congr 1; rw [pow_succ]; omega
+    have hB := two_pow_pos (64 * 2 ^ k)
+    have h1 := ih (old / 2 ^ (64 * 2 ^ k)) s
+    have h2 := ih (old % 2 ^ (64 * 2 ^ k)) (ruTree leaf k (old / 2 ^ (64 * 2 ^ k)) s).2
+    rw [e]
+    constructor
+    · nlinarith
+    · nlinarith
+
+theorem leafW_dest_indep (o o' : Int) (ws : List Int) : leafW o ws = leafW o' ws := by cases ws <;> rfl
+theorem leafG_dest_indep (o o' g : Int) : leafG o g = leafG o' g := by simp only [leafG, overwrite]
+
+/-- **`rand(ruint<K>&)`** (and hence `rand(rint<K>&)`, `rand(rmint<K>&)`): the value and the words consumed do not depend on what
+    the destination held; the value is in `[0, 2^(2^K))` for every `K ≥ 6` and every stream of 64-bit words -/
+theorem ru_rand_dest_indep (K : Nat) (old old' : Int) (ws : List Int) : ruRandD K old ws = ruRandD K old' ws :=
+  ruTree_dest_indep leafW leafW_dest_indep (K - 6) old old' ws
+
+theorem ru_rand_range (K : Nat) (hK : 6 ≤ K) (old : Int) (ws : List Int) (hw : ∀ w ∈ ws, 0 ≤ w ∧ w < 18446744073709551616) :
+    0 ≤ (ruRandD K old ws).1 ∧ (ruRandD K old ws).1 < 2 ^ (2 ^ K) := by
+  have e : (2 : Int) ^ (2 ^ K) = 2 ^ (64 * 2 ^ (K - 6)) := by
     congr 1
-    unfold ruLimbs
     have : 2 ^ K = 2 ^ 6 * 2 ^ (K - 6) := by rw [← pow_add]; congr 1; omega
     omega
-  unfold ruRand
-  rw [e] at h
-  exact h
+  rw [e]
+  -- the tail of a stream of words is a stream of words: strengthen the induction over the tree
+  have key : ∀ (k : Nat) (o : Int) (l : List Int), (∀ w ∈ l, 0 ≤ w ∧ w < 18446744073709551616) →
+      (0 ≤ (ruTree leafW k o l).1 ∧ (ruTree leafW k o l).1 < 2 ^ (64 * 2 ^ k)) ∧ (∀ w ∈ (ruTree leafW k o l).2, 0 ≤ w ∧ w < 18446744073709551616) := by
+    intro k
+    induction k with
+    | zero =>
+      intro o l hl
+      cases l with
+      | nil => simp [ruTree, leafW, overwrite]
+      | cons w t =>
+        have hw0 := hl w (by simp)
+        simp only [ruTree, leafW, overwrite]
+        exact ⟨by simpa using hw0, fun x hx => hl x (by simp [hx])⟩
+    | succ k ih =>
+      intro o l hl
+      simp only [ruTree]
+      have e2 : (2 : Int) ^ (64 * 2 ^ (k + 1)) = 2 ^ (64 * 2 ^ k) * 2 ^ (64 * 2 ^ k) := by rw [← pow_add]; congr 1; rw [pow_succ]; omega
+      have hB := two_pow_pos (64 * 2 ^ k)
+      have h1 := ih (o / 2 ^ (64 * 2 ^ k)) l hl
+      have h2 := ih (o % 2 ^ (64 * 2 ^ k)) _ h1.2
+      rw [e2]
+      exact ⟨⟨by nlinarith [h1.1.1, h2.1.1], by nlinarith [h1.1.2, h2.1.2]⟩, h2.2⟩
+  exact (key (K - 6) old ws hw).1
 
-example : 0 ≤ (ruRand 7 [1, 2]).1 ∧ (ruRand 7 [1, 2]).1 < 2 ^ (2 ^ 7) := ru_rand_range 7 (by decide) _ (by decide)
+example : 0 ≤ (ruRandD 7 (2 ^ 128 - 1) [1, 2]).1 ∧ (ruRandD 7 (2 ^ 128 - 1) [1, 2]).1 < 2 ^ (2 ^ 7) := ru_rand_range 7 (by decide) _ _ (by decide)
+example : ruRandD 7 (2 ^ 128 - 1) [1, 2] = (1 * 2 ^ 64 + 2, []) := by decide
 
-/-- the limb drawn from a GivRandom is a 64-bit word -/
-theorem limbG_range (g : Int) : 0 ≤ (limbG g).1 ∧ (limbG g).1 < 18446744073709551616 := by
-  unfold limbG; simp only; omega
+/-- `rand(rmint<K>&)` (both representations): canonical residue, independent of the destination -/
+theorem rm_rand_spec (K : Nat) (p : Int) (hp : 1 ≤ p) (old old' : Int) (ws : List Int) :
+    canonical p (rmRandD K p old ws).1 = true ∧ canonical p (rmRandMgD K p old ws).1 = true ∧
+    rmRandD K p old ws = rmRandD K p old' ws ∧ rmRandMgD K p old ws = rmRandMgD K p old' ws := by
+  refine ⟨?_, ?_, ?_, ?_⟩
+  · unfold canonical rmRandD; simp only [decide_eq_true_eq]
+    exact ⟨Int.emod_nonneg _ (by omega), Int.emod_lt_of_pos _ (by omega)⟩
+  · unfold canonical rmRandMgD; simp only [decide_eq_true_eq]
+    exact ⟨Int.emod_nonneg _ (by omega), Int.emod_lt_of_pos _ (by omega)⟩
+  · unfold rmRandD; rw [ru_rand_dest_indep K old old' ws]
+  · unfold rmRandMgD; rw [ru_rand_dest_indep K old old' ws]
 
-/-- `Modular<ruint<K>>::random(g, r)` / `Montgomery<ruint<K>>::random(g, r)` return a canonical residue, and
-    `nonzerorandom` a non-zero one, for every `K`, modulus `p ≥ 1` and generator state -/
-theorem ruint_ring_random_canonical (K : Nat) (p g : Int) (hp : 1 ≤ p) : canonical p (ruRingRandom K p g).1 = true := by
-  unfold canonical ruRingRandom
-  simp only [decide_eq_true_eq]
-  exact ⟨Int.emod_nonneg _ (by omega), Int.emod_lt_of_pos _ (by omega)⟩
+example : canonical 101 (rmRandD 6 101 (2 ^ 64 - 1) [12345]).1 = true := (rm_rand_spec 6 101 (by decide) _ 0 _).1
 
-theorem ruint_ring_nonzero_spec (K : Nat) (p : Int) (hp : 1 ≤ p) (fuel : Nat) : ∀ (g : Int) (eg : Int × Int),
-    ruRingNonzero K p fuel g = some eg → canonical p eg.1 = true ∧ eg.1 ≠ 0 := by
+/-- `rand(rint<K>&)`: independent of the destination -/
+theorem ri_rand_dest_indep (K : Nat) (old old' : Int) (ws : List Int) : riRandD K old ws = riRandD K old' ws := by
+  unfold riRandD
+  rw [ru_rand_dest_indep K (old % 2 ^ (2 ^ K)) (old' % 2 ^ (2 ^ K)) ws]
+
+/-- a sequence of `rand` calls on the global generator (the stream `ws` left after `srand(s)`): values and remaining stream do
+    not depend on the destinations — `srand(s)` followed by the same calls reproduces the same values -/
+theorem ru_run_dest_indep (K : Nat) (olds olds' : List Int) (h : olds.length = olds'.length) (ws : List Int) :
+    runCalls (fun ws old => some (ruRandD K old ws)) olds ws = runCalls (fun ws old => some (ruRandD K old ws)) olds' ws := by
+  apply runCalls_congr _ (fun _ _ => True) (fun s c c' _ => by rw [ru_rand_dest_indep K c c' s])
+  exact List.forall₂_iff_get.2 ⟨h, fun _ _ _ => trivial⟩
+
+/-- `Modular<ruint<K>>::random(g, r)` / `Montgomery<ruint<K>>::random(g, r)` on the generator they are given: canonical,
+    independent of the destination; `nonzerorandom` additionally non-zero -/
+theorem ruint_ring_random_spec (K : Nat) (p : Int) (hp : 1 ≤ p) (old old' g : Int) :
+    canonical p (ruRingRandomD K p old g).1 = true ∧ ruRingRandomD K p old g = ruRingRandomD K p old' g := by
+  constructor
+  · unfold canonical ruRingRandomD; simp only [decide_eq_true_eq]
+    exact ⟨Int.emod_nonneg _ (by omega), Int.emod_lt_of_pos _ (by omega)⟩
+  · unfold ruRingRandomD; rw [ruTree_dest_indep leafG leafG_dest_indep (K - 6) old old' g]
+
+theorem ruint_ring_nonzero_spec (K : Nat) (p : Int) (hp : 1 ≤ p) (fuel : Nat) : ∀ (old old' g : Int),
+    ruRingNonzeroD K p fuel old g = ruRingNonzeroD K p fuel old' g ∧
+    ∀ eg, ruRingNonzeroD K p fuel old g = some eg → canonical p eg.1 = true ∧ eg.1 ≠ 0 := by
   induction fuel with
-  | zero => intro g eg h; simp [ruRingNonzero] at h
+  | zero => intro old old' g; exact ⟨rfl, fun eg h => by simp [ruRingNonzeroD] at h⟩
   | succ f ih =>
-    intro g eg h
-    unfold ruRingNonzero at h
-    split at h
-    · exact ih _ _ h
-    · rename_i hne
+    intro old old' g
+    have hi := (ruint_ring_random_spec K p hp old old' g).2
+    have hc := (ruint_ring_random_spec K p hp old old' g).1
+    constructor
+    · simp only [ruRingNonzeroD]
+      rw [← hi]
+    · intro eg h
+      simp only [ruRingNonzeroD] at h
+      by_cases h0 : (ruRingRandomD K p old g).1 = 0
+      · rw [if_pos h0] at h; exact (ih _ 0 _).2 eg h
+      · rw [if_neg h0] at h
+        simp only [Option.some.injEq] at h; subst h
+        exact ⟨hc, h0⟩
+
+theorem ruRingRun_dest_indep (K : Nat) (p : Int) (hp : 1 ≤ p) (fn fuel : Nat) (olds olds' : List Int) (h : olds.length = olds'.length) (g : Int) :
+    ruRingRun K p fn fuel olds g = ruRingRun K p fn fuel olds' g := by
+  unfold ruRingRun
+  apply runCalls_congr _ (fun _ _ => True) _ _ _ (List.forall₂_iff_get.2 ⟨h, fun _ _ _ => trivial⟩)
+  intro s c c' _
+  unfold ruRingStepD
+  rw [(ruint_ring_random_spec K p hp c c' s).2, (ruint_ring_nonzero_spec K p hp fuel c c' s).1]
+
+example : canonical 101 (ruRingRandomD 7 101 (2 ^ 128 - 1) 5).1 = true := (ruint_ring_random_spec 7 101 (by decide) _ 0 5).1
+example : (ruRingRun 7 101 5 8 [2 ^ 128 - 1, 0] 5).isSome = true := by decide
+
+/-! ### GivRandom: the constructor for every 64-bit seed; `operator()(XXX&)` -/
+
+/-- a non-zero seed never consults the clock: `GivRandom(s)` is deterministic, for every non-zero `s` -/
+theorem givctor_deterministic (s : Int) (hs : s ≠ 0) (clock clock' : List Int) :
+    givCtor s clock = givCtor s clock' ∧ givCtor s clock = some (givInit s) := by
+  unfold givCtor; simp [hs]
+
+/-- **every 64-bit seed** — non-zero seeds of any size (multiples of 2^31-1, values ≥ 2^31, 2^63, 2^64-1), and the zero seed for
+    every clock reading (`BaseTimer::seed()` is an `int64_t`) — gives a state in `[1, 2^31-2]`: never the absorbing state 0 -/
+theorem givctor_range (s : Int) (h0 : 0 ≤ s) (h1 : s < 18446744073709551616) (clock : List Int) (hc : ∀ c ∈ clock, InS64 c)
+    (g : Int) (h : givCtor s clock = some g) : 1 ≤ g ∧ g < givMod := by
+  unfold givCtor at h
+  by_cases hs : s = 0
+  · simp only [hs, ne_eq, not_true_eq_false, ↓reduceIte] at h
+    cases hf : clock.find? (· ≠ 0) with
+    | none => rw [hf] at h; simp at h
+    | some c =>
+      rw [hf] at h
       simp only [Option.some.injEq] at h; subst h
-      exact ⟨ruint_ring_random_canonical K p g hp, hne⟩
+      have hne : c ≠ 0 := by simpa using List.find?_some hf
+      have hin := hc c (List.mem_of_find?_eq_some hf)
+      unfold InS64 at hin
+      exact givinit_range (wrapU64 c) (by unfold wrapU64; omega) (by unfold wrapU64; omega)
+  · simp only [hs, ne_eq, not_false_eq_true, ↓reduceIte, Option.some.injEq] at h; subst h
+    exact givinit_range s (by omega) h1
 
-example : canonical 101 (ruRingRandom 7 101 5).1 = true := ruint_ring_random_canonical 7 101 5 (by decide)
-example : (ruRingNonzero 7 101 8 5).isSome = true := by decide
+example : givCtor 0 [0, 0, 123456789] = some 123456789 := by decide
+example : givCtor 4294967294 [] = some 2 := by decide
 
-/-- `rand(rmint<K>&)` (both representations) is a canonical residue for every modulus `p ≥ 1` -/
-theorem rm_rand_range (K : Nat) (p : Int) (hp : 1 ≤ p) (ws : List Int) :
-    canonical p (rmRand K p ws).1 = true ∧ canonical p (rmRandMg K p ws).1 = true := by
-  unfold canonical rmRand rmRandMg
-  simp only [decide_eq_true_eq]
-  exact ⟨⟨Int.emod_nonneg _ (by omega), Int.emod_lt_of_pos _ (by omega)⟩, ⟨Int.emod_nonneg _ (by omega), Int.emod_lt_of_pos _ (by omega)⟩⟩
+/-- a seed handed over as a *signed* 64-bit number (converted to `uint64_t` by the call) is as good as any other: every
+    non-zero `int64_t`, negative ones included, gives a valid state -/
+theorem givctor_signed (s : Int) (hs : InS64 s) (h0 : s ≠ 0) (clock : List Int) :
+    ∃ g, givCtor (wrapU64 s) clock = some g ∧ 1 ≤ g ∧ g < givMod := by
+  unfold InS64 at hs
+  have hw : wrapU64 s ≠ 0 := by unfold wrapU64; omega
+  refine ⟨givInit (wrapU64 s), (givctor_deterministic _ hw clock clock).2, ?_⟩
+  exact givinit_range (wrapU64 s) (by unfold wrapU64; omega) (by unfold wrapU64; omega)
 
-example : canonical 101 (rmRand 6 101 [12345]).1 = true := (rm_rand_range 6 101 (by decide) _).1
+example : ∃ g, givCtor (wrapU64 (-5)) [] = some g ∧ 1 ≤ g ∧ g < givMod := givctor_signed (-5) (by decide) (by decide) []
+
+/-- which seeds share a sequence: the constructor identifies exactly the seeds that are congruent modulo `2^31 - 2` (shifted by 1);
+    in particular the multiples of the modulus `2^31 - 1` are ordinary seeds: `k (2^31-1) ↦ 1 + (k-1) mod (2^31-2)` -/
+theorem givinit_periodic (s : Int) (h1 : 1 ≤ s) (h2 : s + 2147483646 < 18446744073709551616) : givInit (s + 2147483646) = givInit s := by
+  unfold givInit givMod wrapU64; omega
+
+theorem givinit_multiple (k : Int) (h1 : 1 ≤ k) (h2 : k * 2147483647 < 18446744073709551616) :
+    givInit (k * 2147483647) = 1 + (k - 1) % 2147483646 := by
+  have hw : wrapU64 (k * 2147483647 - 1) = k * 2147483647 - 1 := by unfold wrapU64; omega
+  have he : (k * 2147483647 - 1) % 2147483646 = (k - 1) % 2147483646 := by
+    have : k * 2147483647 - 1 = (k - 1) + k * 2147483646 := by ring
+    rw [this, Int.add_mul_emod_self_right]
+  have hr0 := Int.emod_nonneg (k - 1) (show (2147483646 : Int) ≠ 0 by decide)
+  have hr1 := Int.emod_lt_of_pos (k - 1) (show (0 : Int) < 2147483646 by decide)
+  unfold givInit givMod
+  rw [hw, show (2147483647 : Int) - 1 = 2147483646 by decide, he]
+  generalize (k - 1) % 2147483646 = r at hr0 hr1 ⊢
+  unfold wrapU64; omega
+
+example : givInit (3 * 2147483647) = 3 := by decide
+
+/-- every draw of every sequence from every 64-bit seed (zero seed: for every clock) is in range: combination of the above -/
+theorem givrandom_every_seed (s : Int) (h0 : 0 ≤ s) (h1 : s < 18446744073709551616) (clock : List Int) (hc : ∀ c ∈ clock, InS64 c)
+    (g : Int) (h : givCtor s clock = some g) (n : Nat) : ∀ x ∈ givDraws n g, givOk x = true := by
+  intro x hx
+  have hg := givctor_range s h0 h1 clock hc g h
+  have := givdraws_range n g hg.1 hg.2 x hx
+  unfold givMod at this
+  simp only [givOk, decide_eq_true_eq]; exact this
+
+/-- `g(x)` (`template<class XXX> XXX& operator()(XXX& x)`): the value written and the new state do not depend on what `x` held -/
+theorem givdrawinto_dest_indep (cast : Int → Int) (old old' g : Int) : givDrawInto cast old g = givDrawInto cast old' g := rfl
+
+/-- … and the draw behind it is the ordinary one (same state transition, value = the conversion of `operator()()`) -/
+theorem givdrawinto_eq (cast : Int → Int) (old g : Int) : givDrawInto cast old g = (cast (givNext g), givNext g) := rfl
 
 end Givaro.Props.C20
